@@ -98,9 +98,18 @@ def _round(val, mag=None):
     return 2 * U * (abs(val) if mag is None else mag)
 
 
+def _representable(v) -> bool:
+    try:
+        return mpf(float(v)) == v
+    except OverflowError:
+        return False
+
+
 def add(a: RE, b: RE, sign=1) -> RE:
     val = a.val + sign * b.val
     mag = a.mag + b.mag
+    if a.exact and b.exact and _representable(val):
+        return RE(val, ZERO, mag, True)
     exact = False
     err = a.err + b.err + _round(val, mag)
     return RE(val, err, mag, exact)
@@ -109,6 +118,8 @@ def add(a: RE, b: RE, sign=1) -> RE:
 def mul(a: RE, b: RE) -> RE:
     val = a.val * b.val
     mag = a.mag * b.mag
+    if a.exact and b.exact and _representable(val):
+        return RE(val, ZERO, mag, True)
     err = a.err * b.mag + b.err * a.mag + a.err * b.err + _round(val, mag)
     return RE(val, err, mag)
 
@@ -119,6 +130,8 @@ def div(a: RE, b: RE) -> RE:
     if abs(b.val) <= 4 * b.err:
         raise IllConditioned("denominator near zero")
     val = a.val / b.val
+    if a.exact and b.exact and _representable(val):
+        return RE(val, ZERO, a.mag / abs(b.val), True)
     bl = abs(b.val) - b.err
     mag = a.mag / abs(b.val)
     err = a.err / bl + a.mag * b.err / (abs(b.val) * bl) + _round(val, mag)
